@@ -10,7 +10,11 @@ SMALL = [{"t": "f", "op": 1, "fin": 1, "pl": []}, {"t": "f", "op": 9, "fin": 1, 
 def scaled(b, selector, variant):
     """A behaviour of spec/Transport.tla as a scenario with BUFFER_SIZE 8: 2-byte frames (empty text, empty ping) fill the bursts."""
     total = sum(b['bursts'])
-    frames = [dict(SMALL[(i + variant) % 2]) for i in range(total // 2)]
+    if variant == 2:
+        # 4-byte text frames carrying one two-byte character each: records and short reads cut inside characters
+        frames = [{"t": "f", "op": 1, "fin": 1, "pl": [0xC3, 0xA9]} for _ in range(total // 4)] + [dict(SMALL[1]) for _ in range((total % 4) // 2)]
+    else:
+        frames = [dict(SMALL[(i + variant) % 2]) for i in range(total // 2)]
     return {"url": "wss://example.com/" if b['tls'] else "ws://example.com/", "buffer_size": 8, "selector": selector,
             "conns": [{"stream": [{"t": "http", "v": "ok"}] + frames}],
             "connect_kwargs": {"ping_rate": 0, "close_timeout": None},
